@@ -279,6 +279,40 @@ def r4(rep, mod, call, worker):
             okb = False
             detail = "result_queue.get() at line %d: timeout=%s, liveness check with raise=%s" % (g.lineno, has_timeout, alive)
     rep.ob("R4", "the parent's wait for results has a timeout and raises when a worker process has died", okb, call.site(gets[0]) if gets else call.site(), detail, key="failure/bounded-wait")
+    # drain: a ParallelMap is re-used for later calls, so every result of this call has to be
+    # taken off the shared result queue before the call ends, also when a task failed.  Inside
+    # the collection loop the only exit is the liveness handler (the pool is dead anyway).
+    loops = [n for n in walk_own(call.node) if isinstance(n, ast.For) and any(x is g for g in gets for x in ast.walk(n))]
+    okd, detail = bool(loops), "collection loop not found"
+    if loops:
+        loop = loops[0]
+        early = []
+
+        def visit(n, in_handler, inner_loop):
+            if isinstance(n, (ast.FunctionDef, ast.Lambda)):
+                return
+            if isinstance(n, (ast.Raise, ast.Return)) and not in_handler:
+                early.append(n)
+            if isinstance(n, ast.Break) and not inner_loop:
+                early.append(n)
+            if isinstance(n, ast.Try):
+                own_get = any(x is g for g in gets for b in n.body for x in ast.walk(b))
+                for b in n.body + n.orelse + n.finalbody:
+                    visit(b, in_handler, inner_loop)
+                for h in n.handlers:
+                    for b in h.body:
+                        visit(b, in_handler or own_get, inner_loop)
+                return
+            for ch in ast.iter_child_nodes(n):
+                visit(ch, in_handler, inner_loop or isinstance(n, (ast.While, ast.For)))
+
+        for st in loop.body:
+            visit(st, False, False)
+        okd = not early
+        detail = "; ".join("%s at line %d leaves the collection loop before all results are received" % (type(e).__name__.lower(), e.lineno) for e in early)
+        okd = okd and isinstance(loop.iter, ast.Call) and T(mod, loop.iter) in (K("range(n_tasks)"), K("range(len(args_list))"))
+    rep.ob("R4", "all results of a call are received before the call ends (a failed task is reported after the collection loop, so nothing stale stays queued for the next call)",
+           okd, call.site(loops[0]) if loops else call.site(), detail, key="failure/drain")
 
 
 def r5(rep, prog):
